@@ -196,7 +196,12 @@ def attribution(b0: int, b1: int, b2: int, l0: int, l1: int, l2: int, d0: int, d
     ids, behs, life, delays, lags, rate = sc_
     lag0, lag1 = lags
     n = len(ids)
-    out, world, eq, spans, journal = run_world(ids, behs, life, delays, [lag0, lag1], rate, keep)
+    keep = True if keep else False
+    if ctx.BOUNDS.get('DELAYS') is not None:
+        with ctx.untraced():            # every solver variable was turned into a constant above: plain Python speed
+            out, world, eq, spans, journal = run_world(ids, behs, life, delays, [lag0, lag1], rate, keep)
+    else:
+        out, world, eq, spans, journal = run_world(ids, behs, life, delays, [lag0, lag1], rate, keep)
     ok = [c.recording_id for c in out] == ids
     limit_ticks = TIMEOUT_S * mpm.TPS
     slack = lag0 + lag1
@@ -224,7 +229,7 @@ def attribution(b0: int, b1: int, b2: int, l0: int, l1: int, l2: int, d0: int, d
 
 def modes_agree(b0: int, b1: int, b2: int, rate: int, keep: bool) -> bool:
     """
-    pre: all(0 <= b < 6 for b in (b0, b1, b2)) and 1 <= rate <= 3
+    pre: all(b in B('BEHS') for b in (b0, b1, b2)) and 1 <= rate <= 3
     post: _
     """
     # no worker life-cycle trouble: in-process and dedicated-process execution give the same verdict lists
@@ -251,7 +256,7 @@ def modes_agree(b0: int, b1: int, b2: int, rate: int, keep: bool) -> bool:
 
 def worker_refines_contract(arrive: List[int], term_after: int, b0: int, b1: int) -> bool:
     """
-    pre: len(arrive) == 2 and all(0 <= a <= 3 for a in arrive) and 0 <= term_after <= 8 and 0 <= b0 < 6 and 0 <= b1 < 6
+    pre: len(arrive) == 2 and all(0 <= a <= 3 for a in arrive) and 0 <= term_after <= 8 and b0 in B('BEHS') and b1 in B('BEHS')
     post: _
     """
     # the REAL worker loop on model queues: for every arrival pattern of two tasks and every moment the terminate event
@@ -313,12 +318,12 @@ CONDITIONS = [
                             'witness_shard': {'life': ['ok', 'die'], 'beh': 'equal'}}}},
     {'fn': 'modes_agree', 'nontrivial': 'failing-recording',
      'what': 'all per-recording behaviours x recycle rates x keep-results: in-process == dedicated',
-     'tiers': {'quick': {'bounds': {}, 'timeout': 600, 'shards': [{}]},
-               'thorough': {'bounds': {}, 'timeout': 1200, 'shards': [{}]}}},
+     'tiers': {'quick': {'bounds': {'BEHS': [0, 2, 3, 5]}, 'timeout': 600, 'shards': [{}]},
+               'thorough': {'bounds': {'BEHS': [0, 1, 2, 3, 4, 5]}, 'timeout': 2400, 'shards': [{}]}}},
     {'fn': 'worker_refines_contract', 'nontrivial': 'two-tasks',
      'what': 'the real _playback_process_target on model queues behaves as the worker contract used by the process model',
-     'tiers': {'quick': {'bounds': {}, 'timeout': 600, 'shards': [{}]},
-               'thorough': {'bounds': {}, 'timeout': 1200, 'shards': [{}]}}},
+     'tiers': {'quick': {'bounds': {'BEHS': [0, 2]}, 'timeout': 600, 'shards': [{}]},
+               'thorough': {'bounds': {'BEHS': [0, 1, 2, 3, 4, 5]}, 'timeout': 2400, 'shards': [{}]}}},
 ]
 
 
